@@ -289,7 +289,9 @@ func (s *Subscriber) GetLatestSync(peerID peer.ID) ipld.Link {
 	if s.lastKnownSync != nil {
 		c, ok = s.lastKnownSync(peerID)
 		if ok && c != cid.Undef {
-			s.latestSyncHandler.setLatestSync(peerID, c)
+			// A sync may have recorded its latest sync while lastKnownSync
+			// was being asked; that value is kept, not replaced.
+			c = s.latestSyncHandler.setLatestSyncIfUnset(peerID, c)
 			return cidlink.Link{Cid: c}
 		}
 	}
